@@ -6,6 +6,7 @@ import (
 	"fmt"
 	"os"
 	"path/filepath"
+	"runtime"
 	"sort"
 	"strconv"
 	"strings"
@@ -300,4 +301,95 @@ func (rawMsgLayout) ToBytes(e *log.Event) []byte {
 		}
 	}
 	return []byte("\n")
+}
+
+func init() { families["c13s"] = runC13StartAtBoundary }
+
+// Appenders started right at an interval boundary. Case: "<rounds> <perRound>": in every round fresh appenders (1 s interval, one directory each)
+// are started back to back from just before a boundary B to just after it; at B+250ms one writer writes one line to each, one at a time.
+// The line must be in the file named for the interval of the write (B), whichever side of B the Start call fell on - or straddled.
+// Observation: "<starts> <starts that straddled a boundary> <wrong> <first wrong ones>"
+func runC13StartAtBoundary(cases []string, out *bufio.Writer, _ []string) {
+	base, _ := os.MkdirTemp("/var/tmp", "verif-c13s-")
+	defer os.RemoveAll(base)
+	spinUntil := func(t time.Time) {
+		if d := time.Until(t) - 3*time.Millisecond; d > 0 {
+			time.Sleep(d)
+		}
+		for time.Now().Before(t) {
+		}
+	}
+	for n, line := range cases {
+		f := strings.Fields(line)
+		rounds, _ := strconv.Atoi(f[0])
+		per, _ := strconv.Atoi(f[1])
+		starts, straddles, wrong := 0, 0, 0
+		var first []string
+		runtime.LockOSThread()
+		for r := 0; r < rounds; r++ {
+			type started struct {
+				a      *log.RollingFileAppender
+				dir    string
+				t0, t1 time.Time
+			}
+			dirs := make([]string, per)
+			for i := range dirs {
+				dirs[i] = filepath.Join(base, fmt.Sprintf("%d-%d-%d", n, r, i))
+				os.MkdirAll(dirs[i], 0755)
+			}
+			b := time.Now().Truncate(time.Second).Add(time.Second)
+			if time.Until(b) < 50*time.Millisecond {
+				b = b.Add(time.Second)
+			}
+			spinUntil(b.Add(-300 * time.Microsecond))
+			var as []started
+			for i := 0; i < per; i++ {
+				a := &log.RollingFileAppender{FileDir: dirs[i], FileName: "app.log", Rotation: log.TimeRotation{Interval: time.Second}, MaxAge: 24}
+				t0 := time.Now()
+				if err := a.Start(); err != nil {
+					continue
+				}
+				t1 := time.Now()
+				as = append(as, started{a, dirs[i], t0, t1})
+				if t1.After(b.Add(150 * time.Microsecond)) {
+					break
+				}
+			}
+			spinUntil(b.Add(250 * time.Millisecond))
+			for i, s := range as {
+				starts++
+				if s.t0.Before(b) && !s.t1.Before(b) {
+					straddles++
+				}
+				id := fmt.Sprintf("%d.%d", r, i)
+				tw := time.Now()
+				s.a.Write(mkLine(id, 10))
+				s.a.Stop()
+				ok := false
+				ents, _ := os.ReadDir(s.dir)
+				var names []string
+				for _, e := range ents {
+					data, _ := os.ReadFile(filepath.Join(s.dir, e.Name()))
+					if bytes.Contains(data, []byte("<id:"+id+">")) {
+						names = append(names, e.Name())
+						if nameToUnix(e.Name()) == tw.Unix() {
+							ok = true
+						}
+					}
+				}
+				if !ok || len(names) != 1 {
+					wrong++
+					if len(first) < 3 {
+						first = append(first, fmt.Sprintf("write-at-%s-(start-%s..%s)-in-%s", tw.Format("05.000000"), s.t0.Format("05.000000"), s.t1.Format("05.000000"), strings.Join(names, "+")))
+					}
+				}
+				os.RemoveAll(s.dir)
+			}
+			for _, d := range dirs {
+				os.RemoveAll(d)
+			}
+		}
+		runtime.UnlockOSThread()
+		fmt.Fprintf(out, "%d %d %d %s\n", starts, straddles, wrong, strings.Join(first, ","))
+	}
 }
